@@ -13,7 +13,8 @@ VARIABLES cls, declared, last
 vars == <<cls, declared, last>>
 
 Lits == {l \in (-NVars)..NVars : l # 0}
-AssumptionSets == {A \in SUBSET Lits : Cardinality(A) <= 2 /\ Consistent(A)}
+(* contradictory assumptions (x and -x) are legal: no model honours them, so the answer is "unsat" for that call and for that call only *)
+AssumptionSets == {A \in SUBSET Lits : Cardinality(A) <= 2}
 Max2(a, b) == IF a > b THEN a ELSE b
 
 Init == cls = {} /\ declared = 0 /\ last = <<"none">>
